@@ -205,6 +205,9 @@ pub struct Conn {
     pub fin_c: Option<u64>,
     pub fin_s: Option<u64>,
     pub by_ip: bool,
+    /// the connector drops its whole stream (both halves, whatever is unread) at this instant
+    #[serde(default)]
+    pub drop_c: Option<u64>,
 }
 
 #[derive(Clone, Debug, Serialize, Deserialize, PartialEq)]
@@ -227,7 +230,20 @@ pub struct Net {
     pub steps: u32,
     /// sample Sim::links before and after every controller action
     pub sample_links: bool,
+    /// connects to a port nobody listens on: the destination's stack answers the SYN with a RST, a
+    /// message that no application sent
+    #[serde(default)]
+    pub probes: Vec<DeadProbe>,
 }
+
+#[derive(Clone, Debug, Serialize, Deserialize, PartialEq)]
+pub struct DeadProbe {
+    pub from: usize,
+    pub to: usize,
+    pub at_ms: u64,
+}
+
+pub const DEAD_PORT: u16 = 7999;
 
 pub fn host_name(i: usize) -> String {
     format!("h{i}")
@@ -294,6 +310,11 @@ pub enum EvKind {
     /// manual delivery of one listed message (found = it was still listed)
     Deliver { a: usize, b: usize, rank: usize, what: Option<Listed> },
     IoErr(String),
+    /// a connect to DEAD_PORT of host `to` was started / ended with this error kind (None = Ok)
+    /// the connector of `conn` dropped its stream
+    Dropped { conn: u16 },
+    ProbeSent { id: usize, to: usize },
+    ProbeResult { id: usize, to: usize, err: Option<String> },
 }
 
 #[derive(Clone, Debug)]
@@ -595,8 +616,20 @@ async fn client_conn(ctx: Ctx, me: usize, id: u16, c: Conn) {
             let port = s.local_addr().map(|a| a.port()).unwrap_or(0);
             ctx.ev(Some(me), hnow(), EvKind::ConnOk { conn: id, port });
             let (r, w) = s.into_split();
-            tokio::task::spawn_local(read_loop(ctx.clone(), me, r, id, 1));
-            write_loop(ctx, me, w, id, 0, true, c.c2s.clone(), c.fin_c).await;
+            let reader = tokio::task::spawn_local(read_loop(ctx.clone(), me, r, id, 1));
+            match c.drop_c {
+                None => write_loop(ctx, me, w, id, 0, true, c.c2s.clone(), c.fin_c).await,
+                Some(at) => {
+                    tokio::select! {
+                        _ = write_loop(ctx.clone(), me, w, id, 0, true, c.c2s.clone(), c.fin_c) => {}
+                        _ = sleep_until_ms(at) => {}
+                    }
+                    // the write half is gone with the select; the read half goes with its task
+                    reader.abort();
+                    let _ = reader.await;
+                    ctx.ev(Some(me), hnow(), EvKind::Dropped { conn: id });
+                }
+            }
         }
         Err(e) => ctx.ev(Some(me), hnow(), EvKind::ConnErr { conn: id, kind: format!("{:?}", e.kind()) }),
     }
@@ -690,6 +723,15 @@ async fn host_main(ctx: Ctx, me: usize) -> turmoil::Result {
     }
     for (id, c) in ctx.net.conns.iter().enumerate().filter(|(_, c)| c.from == me) {
         tokio::task::spawn_local(client_conn(ctx.clone(), me, id as u16, c.clone()));
+    }
+    for (id, p) in ctx.net.probes.iter().enumerate().filter(|(_, p)| p.from == me) {
+        let (ctx, p) = (ctx.clone(), p.clone());
+        tokio::task::spawn_local(async move {
+            sleep_until_ms(p.at_ms).await;
+            ctx.ev(Some(me), hnow(), EvKind::ProbeSent { id, to: p.to });
+            let r = TcpStream::connect(SocketAddr::new(ctx.ips[p.to], DEAD_PORT)).await;
+            ctx.ev(Some(me), hnow(), EvKind::ProbeResult { id, to: p.to, err: r.err().map(|e| format!("{:?}", e.kind())) });
+        });
     }
     std::future::pending::<()>().await;
     Ok(())
